@@ -138,6 +138,21 @@ func (fc *FnCtx) trModel(st *State, call *ast.CallExpr, fn *types.Func, recvExpr
 		return vs
 	}
 	switch full {
+	case "regexp.MustCompile", "regexp.Compile":
+		vs := args()
+		t := fc.typeOf(call)
+		if tup, ok := t.(*types.Tuple); ok {
+			t = tup.At(0).Type()
+		}
+		rv := fc.freshVal(st, "regex", SRec, t)
+		st.fresh[rv.Rec] = true
+		if vs[0].S == SStr {
+			st.env[rv.Rec+".$pattern"] = vs[0]
+		}
+		if full == "regexp.Compile" {
+			return []Val{rv, fc.freshVal(st, "reerr", SInt, nil)}, true
+		}
+		return []Val{rv}, true
 	case "os.ReadFile":
 		vs := args()
 		c := fc.freshVal(st, "filedata", SStr, nil)
